@@ -219,7 +219,7 @@ func genC20(t *rapid.T) *C20Case {
 		t.Skip("base program rejected")
 	}
 	pts := collectInjPoints(f)
-	kinds := []string{"break-outside", "continue-outside-loop", "continue-not-last", "duplicate-case", "second-default", "redefined-const", "text-name-clash", "movement-name-clash", "label-clash-sublabel", "label-clash-text"}
+	kinds := []string{"break-outside", "continue-outside-loop", "continue-not-last", "continue-last-in-poryswitch-case", "duplicate-case", "second-default", "redefined-const", "text-name-clash", "movement-name-clash", "label-clash-sublabel", "label-clash-text"}
 	order := rapid.Permutation(kinds).Draw(t, "kinds")
 	for _, kind := range order {
 		switch kind {
@@ -232,11 +232,11 @@ func genC20(t *rapid.T) *C20Case {
 						cand = append(cand, p)
 					}
 				case "continue-outside-loop":
-					if !p.inLoop && !p.inPS {
+					if !p.inLoop {
 						cand = append(cand, p)
 					}
 				case "continue-not-last":
-					if p.inLoop && !p.inPS && len(p.b.Stmts) > 0 {
+					if p.inLoop && len(p.b.Stmts) > 0 {
 						cand = append(cand, p)
 					}
 				}
@@ -256,6 +256,39 @@ func genC20(t *rapid.T) *C20Case {
 			insertStmt(p.b, idx, st)
 			c.Kind = kind
 			c.Deep = p.depth >= 2 || p.inCase || p.inMS || p.inPS
+		case "continue-last-in-poryswitch-case":
+			// continue as the last statement of a poryswitch case, with statements after the poryswitch:
+			// not last in its block once the case is written out. Known finding (section 11, row 9):
+			// generated only when the listed input no longer fails.
+			if excluded("C20", "continue-direct-in-poryswitch-case") {
+				continue
+			}
+			type target struct {
+				b *Block
+				d int
+			}
+			var cand []target
+			for _, p := range pts {
+				if !p.inLoop {
+					continue
+				}
+				for i, s := range p.b.Stmts {
+					if s.K == "ps" && i < len(p.b.Stmts)-1 {
+						for _, cs := range s.PS.Cases {
+							if cs.Brace && cs.Key == c.Switches[s.PS.Var] {
+								cand = append(cand, target{cs.Body, p.depth})
+							}
+						}
+					}
+				}
+			}
+			if len(cand) == 0 {
+				continue
+			}
+			tg := cand[rapid.IntRange(0, len(cand)-1).Draw(t, "pscase")]
+			tg.b.Stmts = append(tg.b.Stmts, &Stmt{K: "continue", Inj: true})
+			c.Kind = kind
+			c.Deep = true
 		case "duplicate-case", "second-default":
 			sws := collectSwitches(f)
 			var cand []*Switch
